@@ -289,6 +289,17 @@ func (w *world) checkSeen(ep *endpoint, e int, quiescent bool) {
 		if s.peeks != "" {
 			bad(fmt.Sprintf("%s: PeekMeta inside the handler (after the yield) answered with another request's values: %s", tag, s.peeks))
 		}
+		if s.bound1 != nil {
+			wantB := []kv{op.meta[0], op.meta[1]}
+			for _, b := range []struct {
+				when string
+				got  []kv
+			}{{"on entry", s.bound1}, {"after another invocation had started", s.boundMid}, {"after the reply was written", s.bound2}} {
+				if b.got != nil && !kvEqual(b.got, wantB) {
+					bad(fmt.Sprintf("%s: the argument fields bound from the metadata read %s %s, the sender supplied %s", tag, kvString(b.got), b.when, kvString(wantB)))
+				}
+			}
+		}
 		if s.v2 != nil && !s.v1.equal(s.v2) {
 			bad(fmt.Sprintf("%s: the context showed a different request when read again later: first %s then %s", tag, s.v1.String(), s.v2.String()))
 		}
